@@ -266,7 +266,7 @@ CLAIMED = {
          "section call_rcu holds and the documented contract of call_rcu_data_free), helper_futex_range, helper_no_lost_wakeup, "
          "waker_not_stuck / waker_measure, helper_no_stuck / helper_measure; the same handshake with an explicit x86-TSO store buffer "
          "(tso_no_lost_wakeup) and the necessity witness lost_wakeup_if_dec_after_check. Tie: real src/urcu.c + urcu-call-rcu-impl.h "
-         "+ wfcqueue under the shim (memb with/without sys_membarrier, mb), 1-3 workers, re-enqueueing callbacks, per-thread / per-CPU "
+         "+ wfcqueue under the shim (memb with/without sys_membarrier, mb, qsbr, bp), 1-3 workers, re-enqueueing callbacks, per-thread / per-CPU "
          "/ default helpers incl. RT, call_rcu_data_free with pending callbacks, create_all / free_all / set_cpu, futex fault plans "
          "incl. ENOSYS, urcu_call_rcu_exit; every event replayed on Driver/CallRcu.lean; one-preemption sweeps of the helper's "
          "dec / empty-check / sleep window and the enqueuer's enqueue / wake window; oracles once / head / gp / uaf + deadlock / "
@@ -274,7 +274,10 @@ CLAIMED = {
          "invoked exactly once eventually if helper and wakers are weakly fair, sections end, callbacks terminate, no stop / pause), "
          "helper_eventually_wakes, tso_helper_eventually_wakes; C03_full as first written (weak fairness only) is shown FALSE "
          "(C03_full_false: starvation at call_rcu_mutex - a statement artefact). Partial: entry-to-enqueue under mutex contention and "
-         "the hand-over path are outside the liveness theorem; qsbr / bp flavors not run.",
+         "the hand-over path are outside the liveness theorem. Flavors run: memb (with / without sys_membarrier), mb, qsbr, bp (with / "
+         "without); in qsbr the helper's register / thread_offline / thread_online / unregister and an online caller's quiescent "
+         "states are matched event by event and replayed on the model (Cfg.qsbr: an online thread is an open section since its last "
+         "quiescent state).",
     note="Trusted: Lean kernel; GpSpec (C01) as synchronize_rcu; wfcqueue FIFO / atomic enqueue (C10); x86-TSO + futex contract; caller "
          "obligations of the API as model guards; L1 transliteration ⊑ L2 on explored schedules only.",
     technique="Lean 4 inductive invariants (placement, timing, order, destruction protocol, sleep/wake handshake; one lemma per label) + event-level trace refinement of the real source under the cooperative runtime with fault injection and one-preemption sweeps",
@@ -291,7 +294,8 @@ CLAIMED = {
          "check, sweep of the helper inside the caller's dec / count-test / FUTEX_WAIT window. Liveness (Props/LiveC04.lean): "
          "barrier_eventually_returns (once the markers are queued, rcu_barrier() returns on every run weakly fair for the caller and the "
          "markers on which every marker is eventually invoked = C03's liveness). Partial: the lock / init / enqueue prefix under mutex "
-         "contention needs strong fairness (C04_full as first written does not hold under weak fairness); qsbr online/offline caller not run.",
+         "contention needs strong fairness (C04_full as first written does not hold under weak fairness). All flavors run; qsbr: "
+         "rcu_barrier's was_online / offline / online idiom matched event by event for online and offline callers.",
     note="Trusted: as C03; the barrier layer reaches C03 only through the hooks (base_reach proved).",
     technique="Lean 4 invariants (bookkeeping / refcount / handshake per label; list-decomposition proof of the marker-FIFO invariant) + the C03 trace refinement",
     design_ref="§4 C04", engine="callrcu"),
